@@ -1,6 +1,7 @@
 import ERP.Lemmas.Ctrl
 import ERP.Properties.C03
 import ERP.Lemmas.GenGeometry
+import ERP.Lemmas.GenTies
 /-! # C01 — No motion into and no extrusion inside an excluded region (X/Y/Z part)
 
 Stated for the dialect `Dialect` (see `StepInv`): the full dialect of the property minus arcs in
